@@ -16,4 +16,4 @@ def check(run, replay=None):
     return msgprops.check(run, "C15", "Props/C15", THEOREMS, {"c01": True, "c02": True}, replay,
                           translated=[("Props/C15T", THEOREMS_T),
                                       # the generics of the message type come out of the checker threaded through MsgVariants::new
-                                      ("Props/C01V", ["c01_translated_variants_of_one_kind"])])
+                                      ("Props/C01V", ["c01_translated_variants_of_one_kind", "c01_translated_one_variant"])])
